@@ -40,6 +40,9 @@ FLAG_NAMES = ["FITERRSMALL", "FITERR", "FIXED2PSF", "FIXEDCIRCULAR",
 
 
 MUTANTS = [
+    ("pa wrap steps away from the interval", "AegeanTools/source_finder.py",
+     "    while pa <= -90:\n        pa += 180", "    while pa <= -90:\n        pa -= 180",
+     "C03-R4"),
     ("RA of exactly 0 wrapped to 360", "AegeanTools/source_finder.py",
      "            if source.ra < 0:\n                source.ra += 360\n"
      "            source.ra_str",
@@ -686,6 +689,10 @@ def r4(ctx, prog):
         try:
             out, _ = concrete.call(pl.node, {p: v})
         except concrete.Unknown as e:
+            if "does not terminate" in str(e):
+                # 10000 iterations on a sample angle: the wrap never returns
+                bad.append((v, "no value: the loop never terminates"))
+                continue
             raise AnalysisError("C03-R4: cannot interpret pa_limit: %s" % e)
         if out is None or not (-90 < out <= 90) or \
                 abs((out - v) / 180.0 - round((out - v) / 180.0)) > 1e-12:
